@@ -1,6 +1,6 @@
 (* C05  Fills execute only at the price the matching rule prescribes. *)
 From RQ Require Import Model.Num Model.Position Model.Matcher Proofs.NumFacts Proofs.MatcherFacts.
-From RQ Require Import Model.Broker Proofs.BrokerFacts.
+From RQ Require Import Model.Broker Proofs.BrokerFacts Gen.BrokerProg.
 Open Scope Q_scope.
 
 Section C05.
@@ -58,6 +58,16 @@ Theorem C05_auction_flag_only_on_first_call : forall fin ops,
   ok_ops fin {| bk_open := []; bk_auction := []; bk_final := []; bk_calls := [] |} ops -> flag_first (bk_calls (brun fin ops)).
 Proof. exact flag_only_on_first_call. Qed.
 
+(* Tie A: SimulationBroker's methods, regenerated from the source on every run as programs over the primitives of Model/Broker.v
+   (Gen/BrokerProg.v): the program of `_match` interprets to the model's matching round, and on_bar / before_trading / after_trading /
+   cancel_order / submit_order are the programs the model was written for (an order leaves BOTH books on cancel, final orders are collected
+   from BOTH books, the matchers are updated BEFORE the bar's orders are matched, everything still open is rejected at the close ...) *)
+Theorem C05_code_broker_is_model :
+  (forall fin ph s, interp fin ph gen_match s = bmatch fin s ph) /\
+  prog_eqb gen_on_bar expected_on_bar && prog_eqb gen_before_trading expected_before_trading && prog_eqb gen_after_trading expected_after_trading &&
+  prog_eqb gen_cancel expected_cancel && prog_eqb gen_submit expected_submit && listeners_as_expected = true.
+Proof. split; [exact gen_match_is_model|exact gen_programs_as_modelled]. Qed.
+
 Print Assumptions C05_reference.
 Print Assumptions C05_auction_rule.
 Print Assumptions C05_auction_flag_only_on_first_call.
@@ -66,3 +76,4 @@ Print Assumptions C05_band.
 Print Assumptions C05_limit.
 Print Assumptions C05_zero_slippage.
 Print Assumptions C05_no_invalid.
+Print Assumptions C05_code_broker_is_model.
